@@ -511,5 +511,13 @@ _C19 = [
      'kind': 'generator', 'result': 'List α', 'tie_theorem': 'C19.src_iter_splitlines_eq_model',
      'translator': 'py2lean_c19', 'ext': 'py2lean_c19', 'gen_file': 'strutils_lines',
      'c19': {'text': ['text'], 'regex': {'_line_ending_re': 're_spans'}, 'group': 1, 'poly_text': True}},
+    # `key` (a caller-supplied predicate) is the instance [PyRtC19.LineKey α]; `re_spans` is iter_splitlines' parameter
+    {'module': 'boltons.strutils', 'qualname': 'indent', 'lean_name': 'indent',
+     'params': {'text': 'List α', 'margin': 'List α', 'newline': 'List α', 're_spans': 'List (Int × Int)'},
+     'tparams': ['α'], 'classes': ['PyRtC19.LineKey α'],
+     'kind': 'function', 'result': 'List α', 'tie_theorem': 'C19.src_indent_eq_model',
+     'translator': 'py2lean_c19', 'ext': 'py2lean_c19', 'gen_file': 'strutils_lines',
+     'c19': {'text': ['text'], 'text_params': ['margin', 'newline'], 'poly_text': True, 'pred': {'key': 'line_key'},
+             'join': True}},
 ]
 SPECS['C19'] = _C19
